@@ -102,3 +102,16 @@ package txresult
 //@   modifies *
 //@   requires lb != nil
 //@   callpre Or: z == addr(caller_lb.Int) && x == addr(caller_lb.Int) && y == addr(caller_lb2Ptr.Int) && caller_lb2Ptr != nil
+
+// ---------------------------------------------------------------------------
+// C16: the receipt interface as seen by transactionHandler.Execute (rules on what is handed over)
+// ---------------------------------------------------------------------------
+//@ property C16
+//@ func (r Receipt) SetResult(status, used, price, addr)
+//@   iface
+//@   trusted
+//@   modifies *
+//@ func (r Receipt) SetReason(e)
+//@   iface
+//@   trusted
+//@   modifies *
